@@ -38,7 +38,75 @@ def find_dispatch_table(prog: Program):
             continue
         if isinstance(tab, dict) and tab and all(isinstance(k, type) and issubclass(k, ast.AST) for k in tab):
             return name, tab, how, node, fn
+    # dispatch by a function: F(type(node))(...) with F a match / if-chain over node classes
+    for n in ast.walk(fn.node):
+        if isinstance(n, ast.Call) and isinstance(n.func, ast.Name) and len(n.args) == 1 and isinstance(n.args[0], ast.Call) and isinstance(n.args[0].func, ast.Name) and n.args[0].func.id == "type":
+            r = prog.resolve(mi.name, n.func.id)
+            if isinstance(r, FuncInfo):
+                tab, default_raises = _table_of_function(prog, r)
+                if tab:
+                    return n.func.id, tab, ("call" if default_raises else "call-with-default"), n, fn
     raise AnalysisError("statement dispatch table (TABLE[type(node)] in convert) not found")
+
+
+def _table_of_function(prog, fi):
+    """{ast class: repository class} computed by a function `def f(t): match t: case ast.X: return C ...`
+    (or an if/elif chain of `t is ast.X` / `t in (ast.X, ...)` tests); and whether the default raises."""
+    params = [a.arg for a in fi.node.args.posonlyargs + fi.node.args.args]
+    if len(params) != 1:
+        return None, False
+    p = params[0]
+    body = [st for st in fi.node.body if not (isinstance(st, ast.Expr) and isinstance(st.value, ast.Constant))]
+    tab = {}
+    default_raises = False
+
+    def ast_cls(e):
+        try:
+            v = prog.eval_const(fi.module, e)
+        except Exception:
+            return None
+        return v if isinstance(v, type) and issubclass(v, ast.AST) else None
+
+    def ret_cls(stmts):
+        if len(stmts) == 1 and isinstance(stmts[0], ast.Return) and isinstance(stmts[0].value, (ast.Name, ast.Attribute)):
+            r = prog.resolve_expr_static(fi.module, stmts[0].value)
+            return r if isinstance(r, (ClassInfo, FuncInfo)) else None
+        return None
+
+    if len(body) == 1 and isinstance(body[0], ast.Match) and isinstance(body[0].subject, ast.Name) and body[0].subject.id == p:
+        for case in body[0].cases:
+            pats = case.pattern.patterns if isinstance(case.pattern, ast.MatchOr) else [case.pattern]
+            if len(pats) == 1 and isinstance(pats[0], ast.MatchAs) and pats[0].pattern is None:
+                default_raises = case.guard is None and any(isinstance(x, ast.Raise) for x in case.body) and not any(isinstance(x, ast.Return) for st in case.body for x in ast.walk(st))
+                continue
+            c = ret_cls(case.body)
+            keys = [ast_cls(pt.value) if isinstance(pt, ast.MatchValue) else None for pt in pats]
+            if c is None or case.guard is not None or not all(keys):
+                return None, False
+            for k in keys:
+                tab.setdefault(k, c)
+        return tab, default_raises
+    # if / elif chain
+    cur = body
+    while cur:
+        st = cur[0]
+        if isinstance(st, ast.If) and isinstance(st.test, ast.Compare) and len(st.test.ops) == 1 and isinstance(st.test.left, ast.Name) and st.test.left.id == p:
+            op, rhs = st.test.ops[0], st.test.comparators[0]
+            keys = []
+            if isinstance(op, (ast.Is, ast.Eq)):
+                keys = [ast_cls(rhs)]
+            elif isinstance(op, ast.In) and isinstance(rhs, (ast.Tuple, ast.List, ast.Set)):
+                keys = [ast_cls(e) for e in rhs.elts]
+            c = ret_cls(st.body)
+            if c is None or not keys or not all(keys):
+                return None, False
+            for k in keys:
+                tab.setdefault(k, c)
+            cur = st.orelse if st.orelse else cur[1:]
+            continue
+        default_raises = isinstance(st, ast.Raise)
+        break
+    return tab, default_raises
 
 
 class Entry:
